@@ -8,7 +8,7 @@ def replay(args, outdir):
     H.FakeRead = pysam_mk
     a, lemma = args['cex'], args['lemma']
     fn = {'L1_nla_pairwise': H._l1_nla_pair, 'L2_chic_pairwise': H._l2_chic_pair, 'L2_plain_pairwise': H._l2_plain_pair,
-          'L3_grouping': H._l3_grouping, 'L4_duplicate_rank_tags': H._l4_tags, 'L5_fragment_cap': H._l5_cap, 'L4b_tags_of_rejected_molecule': H._l4b_tags_rejected}[lemma]
+          'L3_grouping': H._l3_grouping, 'L3b_grouping_across_contigs': H._l3b_two_contigs, 'L4_duplicate_rank_tags': H._l4_tags, 'L5_fragment_cap': H._l5_cap, 'L4b_tags_of_rejected_molecule': H._l4b_tags_rejected}[lemma]
     try:
         ok = fn(**a)
     except Exception as e:
